@@ -396,7 +396,9 @@ def AOpt.wf : AOpt → Bool
   | .src _ ip len _ | .dst _ ip len _ => ipTok ip && canonNum len
   | .inIf _ name => plainTok name
   | .proto n p _ hNum =>
-    (match p with | .num d => canonNum d && !hNum | .vrrp | .ipv6icmp => !n.isNeg | _ => !hNum)
+    (match p with
+     | .num d => canonNum d && !hNum && !([s "1", s "6", s "17", s "58", s "112"].contains d)   -- those have names
+     | .vrrp | .ipv6icmp => !n.isNeg | _ => !hNum)
   | .sport ps _ _ | .dport ps _ _ => ps.wf
   | .syn _ _ => true
   | .icmpType t => plainTok t && t.all (fun c => isDigit c || c == '/')
@@ -420,9 +422,21 @@ spelling (the pair map of the code keeps only the last value of a key). -/
 def ARule.wf (cfg : KCfg) (r : ARule) : Bool :=
   r.all AOpt.wf && nodupKeys (userOpts r) && nodupKeys (kernelOpts cfg r)
 
-/-- The meaning of a rule: its kernel options without the protocol match marker, sorted by key. -/
-def sem (cfg : KCfg) (r : ARule) : List (Str × Str) :=
-  let l := (kernelOpts cfg r).filter (fun o => !(o.key == s "-m" && some (joinWith [' '] o.args) == protoOf cfg r))
-  isort (fun a b => strLe a.1 b.1) (l.map fun o => (o.key, o.value))
+/-- The meaning of one option: what the kernel holds for it — its key and value in the kernel's
+(canonical) spelling; for `MARK` the value as a NUMBER (`0xf` and `0x0f` are the same mark) and the mask. -/
+def semEntry (cfg : KCfg) : AOpt → Str × Str
+  | .setMark hex mask _ _ =>
+    let t := s "0x" ++ hex ++ s "/0x" ++ mask
+    (s "--set-xmark", match markNorm t with | some n => intToStr n | none => t)
+  | a => ((a.kernel cfg).key, (a.kernel cfg).value)
+
+/-- The meaning of a rule: the set of its options' meanings — its match set and its target.
+A `-m <proto>` that only names the rule's own protocol matches nothing by itself and is left out. -/
+def semEntries (cfg : KCfg) (r : ARule) : List (Str × Str) :=
+  (r.filter fun a => !isPM (protoOf cfg r) a).map (semEntry cfg)
+
+/-- Two rules are equivalent: the same set of option meanings. -/
+def semEqRule (cfg : KCfg) (r1 r2 : ARule) : Bool :=
+  (semEntries cfg r1).all (· ∈ semEntries cfg r2) && (semEntries cfg r2).all (· ∈ semEntries cfg r1)
 
 end NA.Linux.Spec
